@@ -29,6 +29,9 @@ CHECKS = {
  "C14": ("exploration", "Sequences of SET EX / EXPIRE / PERSIST / overwrite / delete / rename / FSET / JSET at PRNG phases relative to the 100 ms sweeper run against real servers; a time-disciplined oracle judges 'never early' against the client's send time, 'eventually gone' against ack time + T + 5 s while PING answers within 100 ms (reads straddling a deadline are not judged), TTL replies as intervals, successors surviving a predecessor's deadline (stale timers), and that every expiry is a logged DEL observed by fences (del message), a caught-up follower, and a restart; hooks/channels with EX likewise; bulk expiry of 50-500 objects.",
          "Client monotonic clock vs server wall clock (20 ms guard band, no clock steps); machine load yields no judgement or inconclusive; known finding restart:ttl-rearmed.",
          "runtime monitoring: bounded-progress oracle over polled reads, log/fence/follower/restart observers", "4/C14"),
+ "C06": ("fault_enumeration", "Leader and follower run as separate processes with a harness TCP proxy between them; generated leader histories (all write commands, hooks, scripts, > 512 KiB logs) with a monotone marker; follower initial states {empty, true prefix, unrelated data} x {below, above the checksum window}; fault sequences from {follower restart, kill -9, connection drop, cut at a byte offset, leader AOFSHRINK, follower SIGSTOP/SIGCONT, sliced delivery, leader restart}; oracles: bounded convergence to dump equality once healthy and quiescent, and a HEALTHZ poller that requires the follower's marker to be at least what the leader had acknowledged before the follower's latest reconnect whenever it claims healthy.",
+         "Reconnect instants are read at the proxy; 25 s bounded-progress window; dumps through the public API.",
+         "runtime monitoring with fault injection: two-process dump differential + online marker monitor", "4/C06"),
 }
 def main():
     old = json.load(open('/verif/MANIFEST.json'))
